@@ -304,7 +304,13 @@ pub fn ts_in_window(ts: &str, lo_ns: i64, hi_ns: i64) -> bool {
     let lo = ctl::local_from_ns(lo_ns - lo_ns.rem_euclid(1000));
     let hi = ctl::local_from_ns(hi_ns);
     match chrono::DateTime::parse_from_str(ts, TS_FMT) {
-        Ok(t) => t >= lo && t <= hi,
+        // the instant lies within the call, and the offset shown is the one of the configured
+        // clock (local time of that instant, or +00:00 where UTC is forced)
+        Ok(t) => {
+            t >= lo
+                && t <= hi
+                && ts.rsplit(' ').next() == ctl::ts_text(lo_ns, "%:z").rsplit(' ').next()
+        }
         Err(_) => false,
     }
 }
@@ -404,6 +410,12 @@ fn judge_one(
         return Err(d);
     }
     Ok(ts)
+}
+
+/// shards 4..8 and 12..16 run with UTC forced (a process-wide, irrevocable setting); together with
+/// the time zone chosen per shard (`shard % 4`) every zone is covered both ways
+pub fn forced_utc_shard(shard: u64) -> bool {
+    (shard / 4) % 2 == 1
 }
 
 pub fn run_case(ctx: &mut CaseCtx) -> CaseResult {
@@ -628,7 +640,7 @@ pub fn run_case(ctx: &mut CaseCtx) -> CaseResult {
             let frozen = if autotick {
                 None
             } else {
-                Some(ctl::local_from_ns(*lo).format(TS_FMT).to_string())
+                Some(ctl::ts_text(*lo, TS_FMT))
             };
             match judge_one(f, got, r, &thread, frozen.as_deref()) {
                 Ok(ts) => {
@@ -792,7 +804,7 @@ fn parse_sequential(
                 None => return Err(format!("record {i}: no line ending after the JSON object")),
             }
         } else {
-            let ts = ctl::local_from_ns(*lo).format(TS_FMT).to_string();
+            let ts = ctl::ts_text(*lo, TS_FMT);
             layout(f, r, &ts, thread).len()
         };
         if len > rest.len() || rest.len() < len + le.len() || &rest[len..len + le.len()] != le {
@@ -1004,6 +1016,10 @@ pub fn child_main(a: &ChildArgs) -> i32 {
     if sc.crlf {
         lg = lg.use_windows_line_ending();
     }
+    if forced_utc_shard(a.shard) {
+        lg = lg.use_utc();
+        ctl::set_forced_utc();
+    }
     let handle = match lg.start() {
         Ok(h) => h,
         Err(e) => {
@@ -1153,7 +1169,7 @@ pub fn c20_child_case(ctx: &mut CaseCtx) -> CaseResult {
         };
         let mut tss = Vec::new();
         for (i, ((r, lo, _), got)) in subset.iter().zip(seen.iter()).enumerate() {
-            let frozen = ctl::local_from_ns(*lo).format(TS_FMT).to_string();
+            let frozen = ctl::ts_text(*lo, TS_FMT);
             match judge_one(f, got, r, "main", Some(&frozen)) {
                 Ok(ts) => tss.push(ts),
                 Err(d) => {
